@@ -1989,6 +1989,15 @@ PPL::MIP_Problem::is_lp_satisfiable() const {
         // assertion to be checked.
         x.initialized = true;
       }
+      else if (x.initialized
+               && x.internal_space_dim == x.external_space_dim) {
+        // The pending constraints are going to be checked against
+        // `last_generator', which has to be the basic solution of the
+        // tableau: a previous call to solve() or is_satisfiable() on a
+        // problem with integer variables may have replaced it with the
+        // integral solution found by branch-and-bound.
+        x.compute_generator();
+      }
 
       // Apply incrementality to the pending constraint system.
       x.process_pending_constraints();
